@@ -115,6 +115,7 @@ def coq_ty(t):
     if isinstance(t, tuple):
         if t[0] == "named" and t[1] in ALIASES: return "str"
         if t[0] == "named" and t[1] == "Value": return "Value.value"
+        if t[0] == "named" and t[1] == "Ordering": return "comparison"
         if t[0] == "list": return f"(list {coq_ty(t[1])})"
         if t[0] == "mref": return f"(lens {coq_ty(t[1])})"
         if t[0] == "vacant": return "(lens Value.obj * str)"
@@ -808,6 +809,13 @@ class Emitter:
                     return f"match {rt} with Some {x} => {self.apply_closure(args[0], [(x, rty[1])], env, cx, k)} | None => {k('false', 'bool')} end"
                 if base == "is_some": return k(f"(match {rt} with Some _ => true | None => false end)", "bool")
                 if base == "is_none": return k(f"(match {rt} with Some _ => false | None => true end)", "bool")
+            if base in ("eq", "ne") and is_str(rty) and len(args) == 1:                    # str / String PartialEq: the bytes
+                neg = (lambda x: f"(negb {x})") if base == "ne" else (lambda x: x)
+                return self.tr(args[0], env, cx, lambda at, aty: k(neg(f"(str_eqb {rt} {self.coerce(at, aty, 'str')})"), "bool"))
+            if base == "partial_cmp" and is_str(rty) and len(args) == 1:                   # str PartialOrd: bytewise lexicographic, always Some
+                return self.tr(args[0], env, cx, lambda at, aty: k(f"(Some (str_cmp {rt} {self.coerce(at, aty, 'str')}))", ("opt", ("named", "Ordering"))))
+            if base == "cmp" and is_str(rty) and len(args) == 1:
+                return self.tr(args[0], env, cx, lambda at, aty: k(f"(str_cmp {rt} {self.coerce(at, aty, 'str')})", ("named", "Ordering")))
             if base in ("len",) and (is_str(rty) or rty == "Cow"): return k(f"(len {self.coerce(rt, rty, 'str')})", "N")
             if base == "is_empty" and (is_str(rty) or rty == "Cow"): return k(f"(len {self.coerce(rt, rty, 'str')} =? 0)", "bool")
             if base in ("as_bytes", "as_str", "as_ref", "bytes"):
@@ -902,6 +910,14 @@ class Emitter:
                 if name == "Err": return k(f"(Err {t})", ("res", "?", ty))
                 return k(f"(Some {t})", ("opt", ty))
             return self.tr(args[0], env, cx, mk)
+        if name in ("PartialOrd::partial_cmp", "PartialEq::eq", "Ord::cmp") and len(args) == 2:        # UFCS form of a str comparison
+            def both(ts):
+                (at, aty), (bt, bty) = ts
+                if not (is_str(aty) and is_str(bty)): raise RsError(f"{name} on non-string operands")
+                if name == "PartialEq::eq": return k(f"(str_eqb {at} {bt})", "bool")
+                if name == "Ord::cmp": return k(f"(str_cmp {at} {bt})", ("named", "Ordering"))
+                return k(f"(Some (str_cmp {at} {bt}))", ("opt", ("named", "Ordering")))
+            return self.tr_list(args, env, cx, both)
         if name in ("Cow::Owned", "Cow::Borrowed"):
             return self.tr(args[0], env, cx, lambda t, ty: k(f"(Cow_{segs[1]} {self.coerce(t, ty, 'str')})", "Cow"))
         if name in ("String::from_utf8_unchecked", "String::from", "core::str::from_utf8_unchecked", "str::from_utf8_unchecked"):
@@ -1521,12 +1537,15 @@ def translate(repo, groups, types, fuel):
     srcs = {}
     items_by_file = {}
     for g, targets in groups:
+        if targets == "auto:cmp": targets = [{"file": "src/pointer.rs"}]
         for t in targets:
             f = t["file"]
             if f not in items_by_file:
                 src = open(os.path.join(repo, f)).read()
                 srcs[f] = src
                 items_by_file[f] = find_items(src, CONFIG.get("file_renames", {}).get(f))
+    groups = [(g, discover_cmp(repo) if targets == "auto:cmp" else targets) for g, targets in groups]
+    CONFIG["_expanded_groups"] = groups
     unit.structs.update(EXTERN_STRUCTS); unit.enums.update(EXTERN_ENUMS)
     for f, it in items_by_file.items():
         unit.structs.update(it["structs"]); unit.enums.update(it["enums"]); unit.consts.update(it["consts"])
@@ -1539,6 +1558,8 @@ def translate(repo, groups, types, fuel):
     em = Emitter(unit)
     for g, targets in groups:
         lines = out.setdefault(g, [])
+        if g == "Cmp":
+            lines += cmp_declarations(srcs["src/pointer.rs"], len(targets))
         if CONFIG.get("group_types", {}).get(g):
             try:
                 lines += gen_types(unit, CONFIG["group_types"][g])
@@ -1550,6 +1571,7 @@ def translate(repo, groups, types, fuel):
             trait = t.get("trait")
             it = items_by_file[f]
             cands = [(k, v) for k, v in it["fns"].items() if k[0] == impl and k[2] == name and (trait is None or (k[1] or "").startswith(trait))
+                     and (t.get("trait_exact") is None or k[1] == t["trait_exact"])
                      and (t.get("mod") is None or k[3] == t["mod"])]
             entry = {"file": f, "coq": coqname, "group": g}
             report["functions"][coqname] = entry
@@ -1609,6 +1631,39 @@ def translate(repo, groups, types, fuel):
             except RsError as e:
                 entry["status"] = "not-translatable"; entry["error"] = str(e)
     return out, report
+
+
+def cmp_declarations(src, n_impls):
+    """what the DERIVED comparison impls depend on: both types are newtypes over their text and derive the five traits"""
+    out = ["(* src/pointer.rs: the two declarations; the derived PartialEq / Eq / PartialOrd / Ord / Hash of a one-field tuple struct\n"
+           "   compare / hash that field *)"]
+    for ty, inner in (("Pointer", "str"), ("PointerBuf", "String")):
+        m = re.search(r"#\[derive\(([^)]*)\)\]\s*(?:(?://[^\n]*|#\[[^\]]*\])\s*)*pub struct " + ty + r"\(([^)]*)\);", src)
+        derives = [d.strip() for d in m.group(1).split(",")] if m else []
+        newtype = bool(m) and m.group(2).strip() == inner
+        for tr in ("PartialEq", "Eq", "PartialOrd", "Ord", "Hash"):
+            out.append(f"Definition gen_{ty}_derives_{tr} : bool := {'true' if tr in derives else 'false'}.")
+        out.append(f"Definition gen_{ty}_is_newtype_over_{inner} : bool := {'true' if newtype else 'false'}.")
+    out.append(f"(* number of hand-written `impl PartialEq<..>` / `impl PartialOrd<..>` items found (each is translated below) *)\nDefinition gen_cmp_impl_count : N := {n_impls}.")
+    return out
+
+
+def discover_cmp(repo):
+    """every hand-written `impl PartialEq<X> for Y` / `impl PartialOrd<X> for Y` of src/pointer.rs (the mixed comparisons between
+    Pointer, PointerBuf, str, String and references to them): one target per impl, named after both operand types"""
+    src = open(os.path.join(repo, "src/pointer.rs")).read()
+    it = find_items(src, None)
+    out = []
+    def san(x): return re.sub(r"[^A-Za-z0-9]", "", x.replace("&", "ref"))
+    for k in it["fns"]:
+        impl, tr, name, mod = k
+        if not tr or mod: continue
+        m = re.fullmatch(r"(PartialEq|PartialOrd)<(.*)>(@ref)?", tr)
+        if not m or name not in ("eq", "partial_cmp"): continue
+        lhs = ("ref" if m.group(3) else "") + impl
+        out.append({"file": "src/pointer.rs", "impl": impl, "trait_exact": tr, "name": name,
+                    "coq": f"gen_{name}_{san(lhs)}_{san(m.group(2))}", "self_ty": "CmpSelf" + san(lhs) + san(m.group(2)), "self_type": "str"})
+    return sorted(out, key=lambda t: t["coq"])
 
 
 CONFIG = {
@@ -1740,6 +1795,8 @@ CONFIG = {
         ]),
         # the walks that MUTATE a document through `&mut` references, translated in lens mode: a reference is the pair
         # (content, write-back into the document) of GenTreePrelude.lens; each function returns (document afterwards, result)
+        # all hand-written mixed comparisons (C17): discovered, not listed, so a new one is translated too
+        ("Cmp", "auto:cmp"),
         ("TreeMut", [
             {"file": "src/resolve.rs", "impl": "Value", "mod": "json", "name": "resolve_mut", "coq": "gen_json_resolve_mut_lens", "self_ty": "JsonValueL",
              "self_type": ("mref", ("named", "Value")), "lens": True},
@@ -1764,7 +1821,7 @@ CONFIG = {
         ]),
     ],
     # which earlier groups a group's functions call (imports of the generated file)
-    "deps": {"PtrOps": ["Token"], "TreeMut": ["Token", "PtrOps", "Slice", "Index", "=GenTreePrelude", "Tree"], "Slice": ["PtrOps"], "Buf": ["Token", "PtrOps"], "PtrBuild": ["Token", "PtrOps", "Buf"], "Index": ["=GenTreePrelude"], "Tree": ["Token", "PtrOps", "Slice", "Index", "=GenTreePrelude"]},
+    "deps": {"Cmp": ["=Value"], "PtrOps": ["Token"], "TreeMut": ["Token", "PtrOps", "Slice", "Index", "=GenTreePrelude", "Tree"], "Slice": ["PtrOps"], "Buf": ["Token", "PtrOps"], "PtrBuild": ["Token", "PtrOps", "Buf"], "Index": ["=GenTreePrelude"], "Tree": ["Token", "PtrOps", "Slice", "Index", "=GenTreePrelude"]},
     # fuel for `while` loops: (generated function, nesting depth) -> Gallina term over the parameters
     "fuel": {("gen_validate_bytes", 0): "S (length bytes)",
              ("gen_json_resolve", 0): "S (length ptr)", ("gen_json_resolve_mut", 0): "S (length ptr)",
@@ -1792,7 +1849,7 @@ def main():
     out, report = translate(repo, CONFIG["groups"], CONFIG["types"], CONFIG["fuel"])
     files = {}
     files["ScanTypes.v"] = HEADER + "From JP Require Export Bytes GenPrelude.\nOpen Scope N_scope.\n\n" + "\n\n".join(out["Types"]) + "\n"
-    for g, _ in CONFIG["groups"]:
+    for g, _ in CONFIG["_expanded_groups"]:
         imports = " ".join((p[1:] if p.startswith("=") else f"Generated.Scan{p}") for p in ["Types"] + CONFIG["deps"].get(g, []))
         files[f"Scan{g}.v"] = HEADER + f"From JP Require Import Bytes GenPrelude {imports}.\nOpen Scope N_scope.\n\n" + "\n\n".join(out[g]) + "\n"
     if outdir:
